@@ -20,15 +20,15 @@ func init() {
 	register(&Check{
 		ID: "C13", Level: "exploration", Primary: "sessions", EvalCount: "sessions_checked", RaceIsViolation: false,
 		Rule: "one session = a standards-conforming StartTLS upgrade (go-ldap's StartTLS, and a raw client that waits for the response before its ClientHello) through a wiretap proxy recording both directions, " +
-			"against a StartTLS handler with delays in {0,1,5,50ms} before the reply, between the reply and Request.StartTLS, and after it; 1..64 sessions upgrade in parallel; after the upgrade a mix of requests " +
-			"(go-ldap bind/search/modify, and pipelined concurrent raw requests over the tunnel) is checked with the C01 comparison. Wiretap oracle: plaintext LDAP frames up to and including the StartTLS request " +
+			"against a StartTLS handler with delays in {0,1,5,50ms, and 0.7-3s} before the reply, between the reply and Request.StartTLS, and after it; 1..64 sessions upgrade in parallel; after the upgrade a mix of requests " +
+			"(go-ldap bind/search/modify, and pipelined concurrent raw requests over the tunnel) is checked with the C01 comparison; part of the sessions stay open and idle until the server is stopped, so that shutdown-time bytes are on the wiretap too. Wiretap oracle: plaintext LDAP frames up to and including the StartTLS request " +
 			"(client->server) / the ExtendedResponse with its message ID (server->client), after which every byte in both directions parses as TLS records (content type 20-23, major version 3, length <= 2^14+2048). " +
 			"distinct_nontrivial = distinct (timing triple, client kind, parallelism) combinations whose upgrade completed",
 		Assume: []string{"TLS protection is judged on the wire by record framing; the harness does not attempt to decrypt"},
 		Phases: func(tier string, seed int64) []Phase {
 			return []Phase{{Name: "upgrades", Race: true, Run: c13Run}}
 		},
-		MinObserved: []string{"sessions_checked", "tls_records_classified", "post_upgrade_requests_compared"},
+		MinObserved: []string{"sessions_checked", "tls_records_classified", "post_upgrade_requests_compared", "sessions_open_and_idle_at_stop"},
 	})
 }
 
@@ -167,6 +167,11 @@ func c13Run(c *Ctx) {
 			}
 		}
 	}
+	// handler delays far beyond any plausible internal time-out: the read loop must still not resume
+	timings = append(timings, c13Timing{1500, 0, 0}, c13Timing{0, 1500, 0}, c13Timing{700, 700, 0})
+	if !c.Quick() {
+		timings = append(timings, c13Timing{0, 0, 1500}, c13Timing{3000, 0, 0}, c13Timing{0, 3000, 0}, c13Timing{1100, 1100, 1100})
+	}
 	pars := []int{1, 4}
 	if !c.Quick() {
 		pars = []int{1, 8, 64}
@@ -204,7 +209,12 @@ func c13Timed(c *Ctx, pki *PKI, tm c13Timing, par int, ti int) {
 		c.Inconclusive("server start: " + err.Error())
 		return
 	}
-	defer srv.StopWithin(patience)
+	stopped := false
+	defer func() {
+		if !stopped {
+			srv.StopWithin(patience)
+		}
+	}()
 	tap, err := newWiretap(srv.Addr)
 	if err != nil {
 		c.Inconclusive("wiretap: " + err.Error())
@@ -215,6 +225,10 @@ func c13Timed(c *Ctx, pki *PKI, tm c13Timing, par int, ti int) {
 	var mu sync.Mutex
 	var sent []*ReqSpec
 	upgraded := 0
+	// sessions with s%4 == 3 (raw) or s%4 == 2 (go-ldap) stay open and idle until after Stop has been called:
+	// whatever the server sends when it shuts down must be TLS-protected too
+	holdUntilStop := make(chan struct{})
+	var heldOpen sync.WaitGroup
 	for s := 0; s < par; s++ {
 		wg.Add(1)
 		go func(s int) {
@@ -307,10 +321,31 @@ func c13Timed(c *Ctx, pki *PKI, tm c13Timing, par int, ti int) {
 				upgraded++
 				mu.Unlock()
 				c.Distinct("sessions", fmt.Sprintf("%v/%s/p%d", tm, kind, par))
+				if s%4 >= 2 || par == 1 {
+					heldOpen.Add(1)
+					wg.Done()
+					<-holdUntilStop
+					time.Sleep(30 * time.Millisecond) // let the shutdown bytes (if any) cross the wiretap before the client closes
+					heldOpen.Done()
+					wg.Add(1)
+					c.Count("sessions_open_and_idle_at_stop", 1)
+				}
 			}
 		}(s)
 	}
 	wg.Wait()
+	// Stop while the held sessions are still open, then let them go
+	stopCh := make(chan struct{})
+	go func() { srv.S.Stop(); close(stopCh) }()
+	time.Sleep(20 * time.Millisecond)
+	close(holdUntilStop)
+	heldOpen.Wait()
+	select {
+	case <-stopCh:
+	case <-time.After(patience):
+		c.Inconclusive("Stop did not return with upgraded sessions open (see C11)")
+	}
+	stopped = true
 	time.Sleep(5 * time.Millisecond)
 	// post-upgrade requests: decoded and dispatched exactly as on a plain connection
 	byID := map[int64]*Obs{}
